@@ -1,4 +1,5 @@
 import MithrilModel.ChainClient
+import MithrilModel.ChainSession
 import MithrilModel.ChainComplete
 /-!
 # C03 — Certificate chain verification accepts only chains anchored in the genesis key
@@ -89,6 +90,37 @@ theorem C03_cache_counterexample_prefix :
     clientVerify retrAdv cacheWarm false 10 advC = .ok () ∧
     retrAdv advC.prevHash = some fakeParent ∧ fakeParent.contentHashOk = false ∧
     clientVerify retrAdv cacheWarm true 10 advC = .error .hash := cache_counterexample
+
+/-- **client soundness over whole sessions**: for every sequence of `verify_chain` calls on one client —
+the provider free to answer differently in every call, the cache carried from call to call (extended by a
+successful call, reset by a failed one) — starting from a cache that satisfies the invariant (e.g. empty),
+EVERY accepted certificate of EVERY call is validly chained to a genesis certificate. The cache invariant
+is no longer a hypothesis about an arbitrary cache: it is established by the code itself. -/
+theorem C03_client_sessions_sound (hb : HashBinding) (calls : List ((Nat → Option Cert) × Nat × Cert))
+    (cache : Nat → Option Nat) (hc : CacheInv cache) (i : Nat) (hi : i < calls.length)
+    (h : (session true cache calls).1[i]? = some (.ok ())) : Valid LinkSpec (calls[i]).2.2 :=
+  session_sound hb calls cache hc i hi h
+
+/-- one call keeps the cache invariant (whatever the provider answers, whether it succeeds or fails) -/
+theorem C03_client_run_keeps_cache_invariant (retr : Nat → Option Cert) (cache : Nat → Option Nat)
+    (hc : CacheInv cache) (hb : HashBinding) (fuel : Nat) (c : Cert) :
+    CacheInv (run true retr cache fuel c).2 := (run_inv retr cache hc hb fuel c).1
+
+/-- FIXED FINDING (cache poisoning): before the repair the records of a FAILED call stayed in the cache; a
+first call on an adversary certificate over an altered copy of the genuine boundary certificate is
+rejected but leaves its head cached, and a second call on a certificate chained to that head — genuine
+answers only — was accepted although that head is chained to nothing the genesis key vouches for -/
+theorem C03_cache_poisoning_counterexample_before_repair :
+    (session false (fun _ => none) [(retr1, 10, advF), (retr2, 10, advF2)]).1.map code = [some .hash, none] :=
+  poisoning_counterexample
+
+theorem C03_cache_poisoning_repaired :
+    (session true (fun _ => none) [(retr1, 10, advF), (retr2, 10, advF2)]).1.map code = [some .hash, some .avk] :=
+  poisoning_repaired
+
+/-- non-vacuity of the session theorem: the empty cache satisfies the invariant and an honest call is accepted -/
+example : CacheInv (fun _ => none) ∧
+    (session true (fun _ => none) [(retr0, 5, later)]).1.map code = [none] := ⟨cacheInv_empty, by decide +kernel⟩
 
 /-- completeness direction used by C14: locally good stores verify from every stored certificate -/
 def C03_complete_of_locally_good := @verifyChain_of_locally_good
